@@ -20,6 +20,12 @@ pub struct Decoder {
     last_max_update: usize,
     table: Table,
     buffer: BytesMut,
+    /// Set by `continue_block`: the next `decode` call resumes the header
+    /// block of the previous call instead of starting a new one.
+    continuing: bool,
+    /// Whether the current header block has already yielded a field, after
+    /// which a dynamic table size update is a decoding error.
+    seen_field: bool,
 }
 
 /// Represents all errors that can be encountered while performing the decoding
@@ -159,7 +165,15 @@ impl Decoder {
             last_max_update: size,
             table: Table::new(size),
             buffer: BytesMut::with_capacity(4096),
+            continuing: false,
+            seen_field: false,
         }
+    }
+
+    /// Marks the next `decode` call as the continuation of the header block
+    /// passed to the previous call (a CONTINUATION frame).
+    pub fn continue_block(&mut self) {
+        self.continuing = true;
     }
 
     /// Queues a potential size update
@@ -184,7 +198,12 @@ impl Decoder {
     {
         use self::Representation::*;
 
-        let mut can_resize = true;
+        if !self.continuing {
+            self.seen_field = false;
+        }
+        self.continuing = false;
+
+        let mut can_resize = !self.seen_field;
 
         if let Some(size) = self.max_size_update.take() {
             self.last_max_update = size;
@@ -203,6 +222,7 @@ impl Decoder {
                 Indexed => {
                     tracing::trace!(rem = src.remaining(), kind = %"Indexed");
                     can_resize = false;
+                    self.seen_field = true;
                     let entry = self.decode_indexed(src)?;
                     consume(src);
                     if f(entry).is_break() {
@@ -212,6 +232,7 @@ impl Decoder {
                 LiteralWithIndexing => {
                     tracing::trace!(rem = src.remaining(), kind = %"LiteralWithIndexing");
                     can_resize = false;
+                    self.seen_field = true;
                     let entry = self.decode_literal(src, true)?;
 
                     // Insert the header into the table
@@ -225,6 +246,7 @@ impl Decoder {
                 LiteralWithoutIndexing => {
                     tracing::trace!(rem = src.remaining(), kind = %"LiteralWithoutIndexing");
                     can_resize = false;
+                    self.seen_field = true;
                     let entry = self.decode_literal(src, false)?;
                     consume(src);
                     if f(entry).is_break() {
@@ -234,6 +256,7 @@ impl Decoder {
                 LiteralNeverIndexed => {
                     tracing::trace!(rem = src.remaining(), kind = %"LiteralNeverIndexed");
                     can_resize = false;
+                    self.seen_field = true;
                     let entry = self.decode_literal(src, false)?;
                     consume(src);
 
